@@ -3,6 +3,8 @@
 subscription manager, adapter and exception handler) against Ari.dispatchAll; the properties' statements
 are evaluated on the real action log."""
 from fractions import Fraction
+import logging
+import threading
 import common as C
 import ari
 from streams import Result
@@ -56,7 +58,12 @@ def build(kind, exc_handler, init_out, lsn_out, log, ka=None):
     body["initialize"] = minit
     M = type("M", (MetadataProvider,), body)
 
-    class RM:
+    class RM(S._RequestManager):
+        """the REAL reader loop (`_do_run` is inherited) with recording stand-ins for everything that leaves the reader thread"""
+        def __init__(self):
+            self._log = logging.getLogger("verif-dispatch")
+            self._stop_request = threading.Event()
+            self._server = None
         def send_reply(self, rid, resp):
             acts.cur().append("reply:" + C.hx("%s|%s" % (rid, resp)))
         def send_notify(self, n):
@@ -65,6 +72,7 @@ def build(kind, exc_handler, init_out, lsn_out, log, ka=None):
             acts.sender_ka = k
         def quit(self):
             acts.cur().append("quit")
+            self._stop_request.set()
 
     class Ex:
         def submit(self, fn):
@@ -94,12 +102,29 @@ def build(kind, exc_handler, init_out, lsn_out, log, ka=None):
         S.MetadataProviderServer(M(), ("h", 1), keep_alive=ka, thread_pool_size=1)
     srv._executor.shutdown(wait=False)
     srv._request_manager, srv._executor, srv._server_sock = RM(), Ex(), Sock()
+    srv._request_manager._server = srv
     if kind == "data":
         srv._subscription_mgr = SM()
     if exc_handler is not None:
         srv.set_exception_handler(H())
     S.traceback = type("TB", (), {"print_exc": staticmethod(lambda *a, **k: None)})
     return srv
+
+
+class _ScriptSock:
+    """recv(n) returns at most n bytes of the next scripted chunk; b'' once the script is exhausted"""
+    def __init__(self, chunks):
+        self.chunks = [c.encode("ascii") for c in chunks if c]
+
+    def recv(self, n):
+        if not self.chunks:
+            return b""
+        c = self.chunks[0]
+        if len(c) > n:
+            self.chunks[0] = c[n:]
+            return c[:n]
+        self.chunks.pop(0)
+        return c
 
 
 def gen_lines(kind, R):
@@ -169,14 +194,39 @@ def stream(tier):
         log.calls, log.pending, log.sender_ka = [], [], None
         srv = build(kind, exh, init_out, lsn_out, log, ka)
         M = "DPI" if kind == "data" else "MPI"
-        died = None
-        for ln in lines:
+        # ---- drive the REAL reader loop over a scripted socket: everything in one burst, or one line per read
+        sent_lines = list(lines)
+        burst = R.random() < 0.5
+        sock = _ScriptSock(["".join(lines)] if burst else list(lines))
+        log.read, log.escaped, log.eof = [], [], []
+        orig = srv.on_received_request
+
+        def on_line(tok, orig=orig, log=log):
             log.append([])
+            log.read.append(tok)
             try:
-                srv.on_received_request(ln)
-            except Exception as e:        # an exception escaping on_received_request kills the reader thread
-                died = (ln, e)
-                break
+                return orig(tok)
+            except BaseException as e:
+                log.escaped.append((tok, e))
+                raise
+        srv.on_received_request = on_line
+        srv.on_ioexception = lambda e, log=log: log.eof.append(e)       # the script's end (EOF) is not part of the comparison
+        log.append([])                                                   # actions before any line (none expected)
+        srv._request_manager._do_run(sock)
+        pre = log.pop(0)
+        log.pending = [(idx - 1, fn) for idx, fn in log.pending]
+        quit_seen = any("quit" in l for l in log)
+        died = None
+        if pre:
+            died = ("<before any line>", "actions %r" % (pre,))
+        elif log.read != sent_lines[:len(log.read)]:
+            died = ("framing", "lines dispatched %r differ from the lines sent %r" % (log.read[:3], sent_lines[:3]))
+        elif len(log.read) < len(sent_lines) and not quit_seen:
+            j = len(log.read)
+            why = ("after on_received_request(%r) raised %r" % (log.escaped[-1][0][:60], log.escaped[-1][1])) if log.escaped else "no exception escaped"
+            died = (sent_lines[j], "request line %d of %d was never dispatched although the connection is up and no close request was honoured (%s; %s)" % (
+                j + 1, len(sent_lines), why, "all lines in one read" if burst else "one line per read"))
+        lines = sent_lines[:len(log.read)]
         # run the submitted closures (as the pool would) to learn which request each belongs to
         for idx, fn in log.pending:
             before = len(log[idx])
@@ -193,8 +243,11 @@ def stream(tier):
             else:
                 log[idx].append("submit:?:%r" % (produced,))
         if died:
-            res.violation("reader-died", "on_received_request(%r) raised %r" % died, {"kind": kind, "lines": lines})
+            res.violation("request-not-dispatched", "%r: %s" % died, {"kind": kind, "lines": sent_lines, "one_read": burst, "exception_handler": exh})
             continue
+        res.distribution["burst" if burst else "line_per_read"] += 1
+        if quit_seen and len(lines) < len(sent_lines):
+            res.distribution["lines_unread_after_close"] += len(sent_lines) - len(lines)
         # canonicalise version-refusal replies (message text not modelled)
         shown = []
         init_called = any(a.startswith("init:") for l in log for a in l)
